@@ -767,6 +767,10 @@ func genOp1(rt *rapid.T, w *World, pr *Profile) Op {
 		} else {
 			v := genJSONValue(rt, 1, "sd.val")
 			op.Body = mustJSON(v)
+			if kind == "WriteSubDoc" && chance(rt, 5, "sd.trailing") {
+				// a valid JSON text followed by something else is not a JSON value
+				op.Body = append(op.Body, pick(rt, []string{"]", " 2", `{"y":2}`, ","}, "sd.trail")...)
+			}
 		}
 	default:
 		panic("genOp: unknown kind " + kind)
